@@ -14,6 +14,38 @@ from ..engines import e9_safety as e9
 LEVEL = "other"
 
 
+def _wrapper_cliptype(db, chk, cfg, rule="WRAPPER.cliptype"):
+    """The named convenience functions Intersect / Union / Difference / Xor hand BooleanOp the clip type of their own name: the algebraic
+    identities of C13 (Xor = Union minus Intersection, ...) are stated for the named operations, and a wrapper that forwards the wrong
+    enumerator computes another operation under that name (same signature, so nothing else can tell the twins apart)."""
+    from ..astq import walk, kids, canon, where
+    from ..extract import AnalysisBroken
+    names = ("Intersect", "Union", "Difference", "Xor")
+    n = 0
+    for f in db.funcs:
+        if f.is_pattern or f.body is None or f.cls or f.name not in names:
+            continue
+        for c in walk(f.body):
+            if c.get("kind") != "CallExpr" or db.callee(c)[0] != "BooleanOp":
+                continue
+            args = db.call_args(c)
+            if not args:
+                continue
+            a = args[0]
+            while a.get("kind") in ("ImplicitCastExpr", "ParenExpr") and kids(a):
+                a = kids(a)[0]
+            en = (a.get("referencedDecl") or {}).get("name") if a.get("kind") == "DeclRefExpr" else None
+            n += 1
+            ok = en is not None and (a.get("referencedDecl") or {}).get("kind") == "EnumConstantDecl" and en.startswith(f.name)
+            chk.instance(rule, {"wrapper": f.name, "sig": f.sig[:60], "clip_type": en or canon(a)[:30], "cfg": cfg}, ok=ok)
+            if not ok:
+                chk.violation(rule, f.qual, "%s|%s" % (f.sig[:40], en), "%s (%s) hands BooleanOp the clip type %s: the operation computed under the name %s is not %s"
+                              % (f.name, f.sig[:60], en or canon(a)[:30], f.name, f.name), where(c), cfg=cfg)
+    if n < 8:
+        raise AnalysisBroken("WRAPPER.cliptype: fewer than 8 Intersect / Union / Difference / Xor wrappers calling BooleanOp (%s)" % cfg)
+    return n
+
+
 def run(chk):
     cfgs = ["base", "z"]
     chk.configs = cfgs
@@ -35,6 +67,7 @@ def run(chk):
     chk.rule("POLY.measure", "GetClosestPointOnSegment (used to pull an out-of-scanbeam intersection back onto a nearly horizontal edge - a branch taken for one "
              "placement of a figure and not for its transpose or mirror image), CrossProduct, DotProduct, DistanceSqr and PerpendicDistFromLineSqrd are their "
              "defining polynomials: the returned point minus offPt is perpendicular to the segment and lies on its line (engine E14)")
+    chk.rule("WRAPPER.cliptype", "Intersect / Union / Difference / Xor (Paths64 and PathsD) hand BooleanOp the clip type of their own name")
     chk.rule("SORTED.invalidate", "every public method that may add local minima invalidates the sorted flag, which becomes true only after a sort: paths added after "
              "an Execute are swept in y order whatever the order they were added in")
     chk.rule("POLY.topx", "TopX is the x of the line through bot and top at the given y (with dx = GetDx(bot, top) as SetDx stores it); every shortcut "
@@ -57,6 +90,7 @@ def run(chk):
         _e14h.rule_intersect(_dbh, chk, "hi")
         _e14h.rule_axis(_dbh, chk, "hi")
     for cfg in cfgs:
+        _wrapper_cliptype(AstDB(cfg), chk, cfg)
         db = AstDB(cfg)
         e3.table_symmetry(db, chk, cfg)
         e3.comparators(db, chk, cfg)
